@@ -309,6 +309,7 @@ structure CtxFacts (diff : Diff) (S : Store) (T : Config) (ctx : Ctx) : Prop whe
   b_dom : ∀ k, k ∈ gids T.groups → ∃ gb, ctx.bmap.lookup k = some gb
   b_of : ∀ k gb, ctx.bmap.lookup k = some gb →
     ∃ gt ∈ T.groups, gt.id = k ∧ gb.addrs.Perm gt.addrs ∧ managed gb.id = true ∧ managed k = true
+  b_sorted : ∀ k gb, ctx.bmap.lookup k = some gb → ∃ gt ∈ T.groups, gt.id = k ∧ gb.addrs = sortAddrs gt.addrs
 
 theorem ctxFacts_of {diff : Diff} {S : Store} {T : Config} {ctx : Ctx} (hS : StoreFacts S) (hT : TargetFacts T)
     (hmk : mkCtx diff (load S) T = some ctx) : CtxFacts diff S T ctx := by
@@ -343,7 +344,13 @@ theorem ctxFacts_of {diff : Diff} {S : Store} {T : Config} {ctx : Ctx} (hS : Sto
       refine ⟨gt, hgt, by rw [← hk, e], ?_, hman _ (mem_gids hgb), ?_⟩
       · rw [hsm, e]; exact sortAddrs_perm _
       · rw [← hk, e]; exact (hT.grp gt hgt).1
-    refine ⟨⟨hS.grp_nodup, ?_, ?_, ?_, ?_, ?_⟩, rfl, rfl, ?_, hb_of⟩
+    have hb_sorted : ∀ k gb, List.lookup k (bpairs (sortGroups T.groups) bG).reverse = some gb →
+        ∃ gt ∈ T.groups, gt.id = k ∧ gb.addrs = sortAddrs gt.addrs := by
+      intro k gb h
+      obtain ⟨_, g0, hg0, hk, hsm⟩ := bpairs_mem hsame ((hmem k gb).mp h)
+      obtain ⟨gt, hgt, e⟩ := mem_sortGroups hg0
+      exact ⟨gt, hgt, by rw [← hk, e], by rw [hsm, e]⟩
+    refine ⟨⟨hS.grp_nodup, ?_, ?_, ?_, ?_, ?_⟩, rfl, rfl, ?_, hb_of, hb_sorted⟩
     · intro ga hga
       obtain ⟨g, hgm, e⟩ := mem_sortGroups hga
       rw [hload] at hgm
@@ -908,7 +915,13 @@ theorem epequiv_of_epreal {diff : Diff} {S : Store} {T : Config} {ctx : Ctx} {st
         obtain ⟨gt', hgt', hid', hperm, _⟩ := hcf.b_of x gb' hgb
         have : gt' = gt := eq_of_gid_eq hT.grp_nodup hgt' hgtm' (by rw [hid', hgtid])
         subst this
-        refine ⟨n, g, hp, ?_, fun y => by rw [hmem y, hperm.mem_iff]⟩
+        obtain ⟨_, _, _, _, hmgb, _⟩ := hcf.b_of x gb' hgb
+        have hmn : managed n = true := by
+          rcases hor with ⟨_, h2⟩ | h1
+          · rw [hcf.a_eq, gids_sortGroups] at h2
+            exact (gids_filter_managed.mp h2).2
+          · rw [h1]; exact hmgb
+        refine ⟨n, g, hp, hmn, ?_, fun y => by rw [hmem y, hperm.mem_iff]⟩
         rw [hkeep n ?_]; exact hfg
         rcases hor with ⟨h1, _⟩ | h1
         · exact Or.inl h1
@@ -927,6 +940,10 @@ theorem sids_filter_managed {ss : List Service} {id : String} :
     obtain ⟨g, hg, e⟩ := List.mem_map.mp h
     exact List.mem_map.mpr ⟨g, List.mem_filter.mpr ⟨hg, by rw [e]; exact hm⟩, e⟩
 
+/-- No two groups with different ids carry the same address set. -/
+def DistinctContent (gs : List Group) : Prop :=
+  ∀ g1 ∈ gs, ∀ g2 ∈ gs, (∀ x, x ∈ g1.addrs ↔ x ∈ g2.addrs) → g1.id = g2.id
+
 /-- End to end: for every accepted pair and every `diff` returning valid scripts, the whole
 script of `diffConfig` is accepted by the strict manager and the state reached is equivalent to
 the target, with no managed service or group left over. -/
@@ -934,7 +951,7 @@ theorem plan_converges {diff : Diff} (hdiff : ∀ n m eq, validScript n m eq (di
     {S : Store} {T : Config} (hS : StoreFacts S) (hT : TargetFacts T) (hext : extRefsOK S T = true)
     (hind : unmanagedIndep S = true) (hab : (plan diff (load S) T).abort = none) :
     ∃ S', run S (plan diff (load S) T).calls = some S' ∧ Converged S' T ∧ ServicesConverged S' T ∧
-      NoLeftoverGroup S' T := by
+      NoLeftoverGroup S' T ∧ (DistinctContent T.groups → DistinctContent (load S').groups) := by
   obtain ⟨ctx, hmk⟩ := plan_abort_none_ctx hab
   rw [plan_eq hmk] at hab ⊢
   simp only at hab ⊢
@@ -1106,7 +1123,7 @@ theorem plan_converges {diff : Diff} (hdiff : ∀ n m eq, validScript n m eq (di
       · exact hn h1
     rw [hgid]
     simpa using this
-  refine ⟨S5, ?_, ⟨?_, ?_⟩, ⟨?_, ?_⟩, ?_⟩
+  refine ⟨S5, ?_, ⟨?_, ?_⟩, ⟨?_, ?_⟩, ?_, ?_⟩
   · rw [List.append_assoc, run_append hrun3, run_append hrun4]; exact hrun5
   · -- every target policy is there with equivalent rules
     intro pb hpb
@@ -1172,5 +1189,36 @@ theorem plan_converges {diff : Diff} (hdiff : ∀ n m eq, validScript n m eq (di
     rcases hrefs with h | h
     · simp [huse _ _ hreal.2.2.1 h]
     · simp [huse _ _ hreal.2.2.2 h]
+  · -- managed groups left carry the contents of pairwise different target groups
+    intro hdT g1 hg1 g2 hg2 hsame
+    have hname : ∀ g ∈ (load S5).groups, ∃ k gt, st2.nod.lookup k = some g.id ∧ gt ∈ T.groups ∧ gt.id = k ∧
+        ∀ x, x ∈ g.addrs ↔ x ∈ gt.addrs := by
+      intro g hg
+      obtain ⟨hgS5, hm⟩ := List.mem_filter.mp hg
+      rw [hgrp5] at hgS5
+      obtain ⟨hg3, hkeepG⟩ := List.mem_filter.mp hgS5
+      have hnot : g.id ∉ dsG := by simpa using hkeepG
+      have hown : ∃ k, st2.nod.lookup k = some g.id := by
+        rcases hinv.ids g.id (mem_gids hg3) with h0 | ⟨k, _, hk, _, _⟩
+        · apply hinv.needed_owned
+          by_cases hn : g.id ∈ st2.needed
+          · exact hn
+          · exact absurd ((hdsG_mem g.id).mpr ⟨h0, hm, hn⟩) hnot
+        · exact ⟨k, hk⟩
+      obtain ⟨k, hk⟩ := hown
+      obtain ⟨gb, g', hgb, hfg, hmem, _⟩ := hinv.nod k g.id hk
+      have : g' = g := by
+        have := findGroup_mem_nodup hinv.nodup hg3
+        rw [hfg] at this
+        exact Option.some.inj this
+      subst this
+      obtain ⟨gt, hgt, hid, hperm, _⟩ := hcf.b_of k gb hgb
+      exact ⟨k, gt, hk, hgt, hid, fun x => by rw [hmem x, hperm.mem_iff]⟩
+    obtain ⟨k1, gt1, hk1, hgt1, hid1, hm1⟩ := hname g1 hg1
+    obtain ⟨k2, gt2, hk2, hgt2, hid2, hm2⟩ := hname g2 hg2
+    have := hdT gt1 hgt1 gt2 hgt2 (fun x => by rw [← hm1 x, ← hm2 x, hsame x])
+    rw [hid1, hid2] at this
+    rw [this, hk2] at hk1
+    exact (Option.some.inj hk1).symm
 
 end NA.Nsx
